@@ -14,6 +14,6 @@ git -C $wt apply $d/patch.diff || { echo "patch does not apply"; git -C /repo wo
 ( cd $wt && PYTHONPATH=$wt timeout 300 /venv/bin/python $d/demo.py >/dev/null 2>&1 ); echo "demo with change: exit $?"
 if [ -z "$NOBASE" ]; then /verif/tools/baseline.py $wt | head -3; fi
 for p in "$@"; do
-  ( cd /verif && VERIF_REPO=$wt VERIF_EVIDENCE_DIR=$out/evidence VERIF_REPLAYS_DIR=$out/replays timeout 3000 ./check $p --tier ${TIER:-quick} ${SEED:+--seed $SEED} 2>&1 | grep -E "VIOLATION|MACHINERY|KNOWN|$p (quick|thorough)" | head -4 )
+  ( cd /verif && VERIF_REPO=$wt VERIF_EVIDENCE_DIR=$out/evidence VERIF_REPLAYS_DIR=$out/replays timeout 3000 ./check $p --tier ${TIER:-quick} ${SEED:+--seed $SEED} > $out/$p.out 2>&1; echo "check $p exit=$?"; grep -E "VIOLATION|MACHINERY|KNOWN|$p (quick|thorough)" $out/$p.out | head -4; grep -q "$p \(quick\|thorough\):" $out/$p.out || tail -3 $out/$p.out )
 done
 git -C /repo worktree remove --force $wt; rm -rf $wt
